@@ -659,13 +659,15 @@ func (r *run) evaluate() {
 		r.violate(kind+"/delivered-unknown-value", "Poll returned %d value(s) that were never added", n)
 	}
 
-	// pattern: task k was scheduled while the callback (or the wrapper) of an earlier task of the same identifier was possibly still running
+	// pattern: task k was scheduled while an earlier task p of the same identifier had been handed to a worker and p's
+	// TaskExecutor wrapper was not yet known to be finished (p ran; it was scheduled before k; its wrapper ended, as far
+	// as observed, after k's ExecuteAt began) - the precondition for p's wrapper to remove k's mapping.
 	reschedDuringCallback := func(k *item) bool {
 		for _, p := range byID[k.id] {
 			if p == k || p.starts.Load() == 0 {
 				continue
 			}
-			if p.startTick.Load() < k.schedRet.Load() && (p.doneTick.Load() == 0 || p.doneTick.Load() > k.schedCall.Load()) {
+			if p.schedCall.Load() < k.schedRet.Load() && (p.doneTick.Load() == 0 || p.doneTick.Load() > k.schedCall.Load()) {
 				return true
 			}
 		}
@@ -766,7 +768,7 @@ func (r *run) evaluate() {
 		r.violate(kind+"/lost-element/pending", "%d accepted element(s) (first: %d, offset %dus, scheduled tick %d..%d) were neither cancelled nor dropped by a flag, at most %d may be dropped by the size bound %d, and none of them was delivered at structural quiescence (Size()=%d, Shutdown flags %s)", len(unexcused), it.idx, it.offUs, it.schedCall.Load(), it.schedRet.Load(), allowedDrops, r.sp.MaxSize, r.sizeAtEnd, flagNames(r.sp.Flags))
 	case len(unexcused) > allowedDrops:
 		it := lostRace[0]
-		r.violate(kind+"/lost-element/add-concurrent-with-shutdown", "element %d: Add/ExecuteAt (ticks %d..%d) overlapped Shutdown (ticks %d..%d), returned an element, and the element was never delivered (Size()=%d at quiescence)", it.idx, it.schedCall.Load(), it.schedRet.Load(), shCall, shRet, r.sizeAtEnd)
+		r.violate("queue.Add/accepted-during-shutdown-lost", "kind %s, element %d: Add/ExecuteAt (ticks %d..%d) overlapped Shutdown (ticks %d..%d), returned an element, and the element was never delivered (Size()=%d at quiescence)", kind, it.idx, it.schedCall.Load(), it.schedRet.Load(), shCall, shRet, r.sizeAtEnd)
 	}
 	if r.sp.MaxSize > 0 && accepted > r.sp.MaxSize {
 		r.cnt["size_bound_exceeded_runs"]++
@@ -814,9 +816,9 @@ func (r *run) evaluate() {
 		}
 		trues, runningFP := 0, false
 		for _, c := range idCancels[id] {
-			running := false
+			running := false // some task of the identifier was handed to a worker (about to run, running, or its wrapper not known to be finished) when Cancel was called
 			for _, t := range ts {
-				if t.starts.Load() > 0 && t.startTick.Load() < c.Ret && (t.doneTick.Load() == 0 || t.doneTick.Load() > c.Call) {
+				if t.starts.Load() > 0 && t.schedCall.Load() < c.Ret && (t.doneTick.Load() == 0 || t.doneTick.Load() > c.Call) {
 					running = true
 				}
 				if t.starts.Load() > 0 && t.startTick.Load() < c.Call && (t.endTick.Load() == 0 || t.endTick.Load() > c.Ret) {
@@ -845,7 +847,7 @@ func (r *run) evaluate() {
 			}
 			if !exists {
 				if running {
-					r.violate("taskexec/cancel-true-callback-running", "identifier %d: Cancel (ticks %d..%d) returned true although no task of the identifier scheduled before it was prevented from running - every one of them ran; the callback of one of them had started before Cancel returned and its wrapper was not known to be finished", id, c.Call, c.Ret)
+					r.violate("taskexec/cancel-true-task-handed-over", "identifier %d: Cancel (ticks %d..%d) returned true although no task of the identifier scheduled before it was prevented from running - every one of them ran; one of them had already been handed to a worker (about to run / callback running / wrapper not known to be finished) when Cancel was called", id, c.Call, c.Ret)
 				} else {
 					r.violate("taskexec/cancel-true-nothing-prevented", "identifier %d: Cancel (ticks %d..%d) returned true although no task of the identifier scheduled before it was prevented from running", id, c.Call, c.Ret)
 				}
@@ -859,7 +861,7 @@ func (r *run) evaluate() {
 		if trues > neverStarted {
 			fp := "taskexec/cancel-true-more-often-than-prevented"
 			if runningFP {
-				fp = "taskexec/cancel-true-callback-running"
+				fp = "taskexec/cancel-true-task-handed-over"
 			}
 			r.violate(fp, "identifier %d: Cancel returned true %d times but only %d task(s) of the identifier never ran", id, trues, neverStarted)
 		}
